@@ -2,8 +2,6 @@
 import json
 import os
 
-from hypothesis import strategies as st
-
 from vlib import clilib as C
 from vlib.framework import Check, Outcome
 from vlib.sf import Crash, guard
@@ -13,29 +11,28 @@ INLINE_KEY = {
 }
 
 
-@st.composite
-def scenario(draw):
-    sql, names, hkind, jinja = draw(C.content(errors="some", noqa="some", inline=True, max_parts=3))
-    cfg = draw(C.core_cfg(feu=True, runaway=False, disable_noqa=True, templater_jinja=jinja))
+def scenario(pick):
+    sql, names, hkind, jinja = C.content(pick, errors="some", noqa="some", inline=True, max_parts=3)
+    cfg = C.core_cfg(pick, feu=True, runaway=False, disable_noqa=True, templater_jinja=jinja)
     case = {"sql": sql, "fname": "q.sql", "cfg": cfg, "pieces": names}
-    shape = draw(st.sampled_from(["flat", "flat", "nested", "nested", "cli"]))
+    shape = pick.choice(["flat", "flat", "nested", "nested", "cli"])
     if shape == "nested":
         case["fname"] = "sub/q.sql"
-        case["sub"] = draw(C.sub_cfg())
-        if C.chance(draw, 1, 4):
-            case["subrulecfg"] = {"capitalisation.keywords": {"capitalisation_policy": draw(st.sampled_from(["lower", "upper"]))}}
+        case["sub"] = C.sub_cfg(pick)
+        if pick.chance(1, 4):
+            case["subrulecfg"] = {"capitalisation.keywords": {"capitalisation_policy": pick.choice(["lower", "upper"])}}
     elif shape == "cli":
-        k = draw(st.sampled_from(["rules", "exclude_rules", "dialect", "rules+exclude_rules"]))
+        k = pick.choice(["rules", "exclude_rules", "dialect", "rules+exclude_rules"])
         cli = {}
         if "rules" in k.split("+"):
-            cli["rules"] = draw(st.sampled_from([r for r in C.RULE_SETS if r]))
+            cli["rules"] = pick.choice([r for r in C.RULE_SETS if r])
         if "exclude_rules" in k.split("+"):
-            cli["exclude_rules"] = draw(st.sampled_from([e for e in C.EXCLUDES if e]))
+            cli["exclude_rules"] = pick.choice([e for e in C.EXCLUDES if e])
         if k == "dialect":
-            cli["dialect"] = draw(st.sampled_from(C.DIALECTS))
+            cli["dialect"] = pick.choice(C.DIALECTS)
         case["cli"] = cli
-    if C.chance(draw, 1, 6):
-        case["rulecfg"] = {"capitalisation.keywords": {"capitalisation_policy": draw(st.sampled_from(["lower", "upper"]))}}
+    if pick.chance(1, 6):
+        case["rulecfg"] = {"capitalisation.keywords": {"capitalisation_policy": pick.choice(["lower", "upper"])}}
     return case
 
 
@@ -105,7 +102,7 @@ class C19(Check):
         assert "only first: [('LT01', 1, 2)]" in diff([vkey(r)], [])
 
     def strategy(self, tier):
-        return scenario()
+        return C.scenarios(scenario)
 
     def examples(self, tier):
         return 7 if tier == "quick" else 250
